@@ -2,10 +2,55 @@ package gts
 
 import (
 	"bytes"
+	"fmt"
 	"regexp"
 	"sort"
 	"strings"
+	"unicode/utf8"
 )
+
+// lowerASCII returns a copy of p with the letters A-Z in lower case. Every
+// other byte stays as it is (bytes.ToLower would re-encode bytes that are not
+// valid UTF-8, changing the length of p and with it every position).
+func lowerASCII(p []byte) []byte {
+	q := make([]byte, len(p))
+	for i, c := range p {
+		if 'A' <= c && c <= 'Z' {
+			c += 'a' - 'A'
+		}
+		q[i] = c
+	}
+	return q
+}
+
+// latin1 reads p as one character per byte. offsets maps every offset of the
+// returned string at which a character starts (and its end) to the index of
+// that byte in p; it is nil when the string is p itself.
+func latin1(p []byte) (text string, offsets []int) {
+	ascii := true
+	for _, c := range p {
+		if c >= utf8.RuneSelf {
+			ascii = false
+			break
+		}
+	}
+	if ascii {
+		return string(p), nil
+	}
+	b := strings.Builder{}
+	for i, c := range p {
+		for len(offsets) < b.Len() {
+			offsets = append(offsets, i-1)
+		}
+		offsets = append(offsets, i)
+		b.WriteRune(rune(c))
+	}
+	for len(offsets) < b.Len() {
+		offsets = append(offsets, len(p)-1)
+	}
+	offsets = append(offsets, len(p))
+	return b.String(), offsets
+}
 
 func replaceBytes(p, old, new []byte) []byte {
 	q := make([]byte, len(p))
@@ -56,7 +101,7 @@ func Match(seq Sequence, query Sequence) []Segment {
 	}
 
 	b := strings.Builder{}
-	for _, c := range bytes.ToLower(query.Bytes()) {
+	for _, c := range lowerASCII(query.Bytes()) {
 		switch c {
 		case 't', 'u':
 			b.WriteString("[tu]")
@@ -83,17 +128,27 @@ func Match(seq Sequence, query Sequence) []Segment {
 		case 'n':
 			b.WriteString(".")
 		default:
-			b.WriteString(regexp.QuoteMeta(string([]byte{c})))
+			if c < utf8.RuneSelf {
+				b.WriteString(regexp.QuoteMeta(string([]byte{c})))
+			} else {
+				fmt.Fprintf(&b, `\x{%x}`, c)
+			}
 		}
 	}
 
+	// The pattern is matched against the sequence read as one character per
+	// byte, so that a byte which is not ASCII is a character of its own too
+	// and matches only itself.
 	s := b.String()
-	p := bytes.ToLower(seq.Bytes())
+	text, offsets := latin1(lowerASCII(seq.Bytes()))
 
 	re := regexp.MustCompile(s)
-	pairs := re.FindAllIndex(p, -1)
+	pairs := re.FindAllStringIndex(text, -1)
 	segments := make([]Segment, len(pairs))
 	for i, pair := range pairs {
+		if offsets != nil {
+			pair[0], pair[1] = offsets[pair[0]], offsets[pair[1]]
+		}
 		segments[i] = Segment{pair[0], pair[1]}
 	}
 	sort.Sort(BySegment(segments))
